@@ -78,6 +78,25 @@ def decimal(v, bits=64):
     return r
 
 
+def truncate(s, n):
+    """the first n characters of s (string precision)"""
+    if s.maxlen <= n:
+        return s
+    ln = z3.If(s.length <= n, s.length, z3.IntVal(n)) if z3.is_expr(s.length) else min(s.length, n)
+    r = SymStr(ln, s.char, n, "trunc%d(%s)" % (n, s.desc[:20]))
+    at = getattr(s, "atoms", None)
+    r.atoms = [("trunc", at[0], n)] if at and len(at) == 1 and at[0][0] == "sym" else [("opaque", r)]
+    return r
+
+
+def map_chars(s, fn, desc):
+    """character-wise image of s (e.g. ASCII lower-casing)"""
+    r = SymStr(s.length, lambda p: fn(s.char(p)), s.maxlen, "%s(%s)" % (desc, s.desc[:20]))
+    at = getattr(s, "atoms", None)
+    r.atoms = [("map", at[0], fn)] if at and len(at) == 1 and at[0][0] == "sym" else [("opaque", r)]
+    return r
+
+
 def concat(parts):
     parts = list(parts)
     if not parts:
@@ -140,8 +159,11 @@ def instantiations(s, max_digits=20):
             choices.append(list(range(a[5], len(a[3]) + 1)))
         elif a[0] == "dec":
             choices.append(list(range(1, min(max_digits, len(str(2 ** a[2] - 1))) + 1)))
+        elif a[0] in ("trunc", "map"):
+            choices.append(list(range(a[1][5], len(a[1][3]) + 1)))
         else:
-            raise ValueError("string atom without structure")
+            from .interp import Unencodable
+            raise Unencodable("string built by an operation the length-forked decision cannot take apart")
     for combo in itertools.product(*choices):
         pos = []
         cons = []
@@ -151,6 +173,12 @@ def instantiations(s, max_digits=20):
             elif a[0] == "sym":
                 cons.append(a[2] == c)
                 pos.extend(("s", a[3][i], a[4]) for i in range(c))
+            elif a[0] == "trunc":
+                cons.append(a[1][2] == c)
+                pos.extend(("s", a[1][3][i], a[1][4]) for i in range(min(c, a[2])))
+            elif a[0] == "map":
+                cons.append(a[1][2] == c)
+                pos.extend(("s", a[2](a[1][3][i]), None) for i in range(c))
             else:
                 v, bits = a[1], a[2]
                 hi = min(10 ** c, 2 ** bits)
